@@ -13,9 +13,27 @@ import (
 // often enough.  Returns the validators, the events (frames set by the real Build), the number of blocks the
 // reference emitted before the last call and the number of blocks of the last call.
 func cascadePrefix(r *rand.Rand, cfg Cfg, epoch0 uint32, maxEv int) (vals []VW, defs []*EvDef, spfs []uint32, blocksBefore, blocksLast int, ok bool) {
+	return searchPrefix(r, cfg, epoch0, maxEv, false)
+}
+
+// jumpPrefix searches for a prefix whose last event takes a decision at a NON-LAST root slot: it decides frame d
+// while occupying at least two slots at frames >= d+2 (four validators of almost equal weight, one lagging
+// deeply: the other three hold a quorum only together, so their roots often cannot decide).
+func jumpPrefix(r *rand.Rand, cfg Cfg, epoch0 uint32, maxEv int) (vals []VW, defs []*EvDef, spfs []uint32, blocksBefore, blocksLast int, ok bool) {
+	return searchPrefix(r, cfg, epoch0, maxEv, true)
+}
+
+func searchPrefix(r *rand.Rand, cfg Cfg, epoch0 uint32, maxEv int, jump bool) (vals []VW, defs []*EvDef, spfs []uint32, blocksBefore, blocksLast int, ok bool) {
 	n := 6 + r.Intn(5)
 	perm := r.Perm(40)
-	for i := 0; i < n; i++ {
+	if jump {
+		n = 4
+		w := uint32(3 + r.Intn(5))
+		for i := 0; i < n; i++ {
+			vals = append(vals, VW{uint32(perm[i] + 1), w + uint32(r.Intn(2))})
+		}
+	}
+	for i := 0; i < n && !jump; i++ {
 		vals = append(vals, VW{uint32(perm[i] + 1), uint32(1 + r.Intn(2+r.Intn(2)))})
 	}
 	ref := NewInst(cfg, epoch0, vals, nil)
@@ -27,14 +45,22 @@ func cascadePrefix(r *rand.Rand, cfg Cfg, epoch0 uint32, maxEv int) (vals []VW, 
 	k := 1 + n/2 + r.Intn(2)
 	slow := map[uint32]bool{} // validators that create rarely: their roots complete quorums late
 	for _, id := range ids {
-		if r.Intn(4) == 0 {
+		if r.Intn(4) == 0 && !jump {
 			slow[id] = true
 		}
+	}
+	deep := uint32(0)
+	if jump {
+		deep = ids[r.Intn(n)]
+		k = 2 + r.Intn(3)
 	}
 	total := 0
 	for len(defs) < maxEv {
 		cr := ids[r.Intn(n)]
 		if slow[cr] && r.Intn(4) != 0 {
+			continue
+		}
+		if cr == deep && r.Intn(10) != 0 {
 			continue
 		}
 		d := &EvDef{N: len(defs), Epoch: epoch0, Creator: cr, Seq: 1}
@@ -49,7 +75,7 @@ func cascadePrefix(r *rand.Rand, cfg Cfg, epoch0 uint32, maxEv int) (vals []VW, 
 		cnt := 0
 		for _, j := range r.Perm(n) {
 			v := ids[j]
-			if v == cr || len(own[v]) == 0 || cnt >= k-1 {
+			if v == cr || len(own[v]) == 0 || (cnt >= k-1 && cr != deep) {
 				continue
 			}
 			p := own[v][len(own[v])-1]
@@ -76,8 +102,18 @@ func cascadePrefix(r *rand.Rand, cfg Cfg, epoch0 uint32, maxEv int) (vals []VW, 
 		defs = append(defs, d)
 		spfs = append(spfs, spf)
 		own[cr] = append(own[cr], d.N)
-		if len(bl) >= 2 {
+		if !jump && len(bl) >= 2 {
 			return vals, defs, spfs, total, len(bl), true
+		}
+		if jump && len(bl) >= 1 {
+			dfr := uint32(total + 1) // the frame decided first by this call
+			lo := spf + 1
+			if dfr+2 > lo {
+				lo = dfr + 2
+			}
+			if d.Frame >= lo+1 {
+				return vals, defs, spfs, total, len(bl), true
+			}
 		}
 		total += len(bl)
 	}
@@ -88,7 +124,7 @@ func cascadePrefix(r *rand.Rand, cfg Cfg, epoch0 uint32, maxEv int) (vals []VW, 
 func CascadeRate(r *rand.Rand, tries, maxEv int) (hits int, meanLen float64) {
 	sum := 0
 	for i := 0; i < tries; i++ {
-		_, defs, _, _, _, ok := cascadePrefix(r, Cfg{FcCap: 200, RootsNum: 50, RootsFrames: 5}, 1, maxEv)
+		_, defs, _, _, _, ok := jumpPrefix(r, Cfg{FcCap: 200, RootsNum: 50, RootsFrames: 5}, 1, maxEv)
 		if ok {
 			hits++
 			sum += len(defs)
